@@ -48,3 +48,123 @@ theorem flatten_take_drop (cs : List Bytes) : ∀ (i j : Nat), i ≤ j → j ≤
         rfl
 
 end Verif.Proofs.Str
+
+namespace Verif.Proofs.Str
+open Verif.Model.Str
+open Verif.Spec.Str (alignedPrefix)
+
+theorem indexFrom_some (bytes needle : Bytes) : ∀ (fuel s abs : Nat),
+    indexFrom bytes needle fuel s = some abs → s ≤ abs ∧ occursAt bytes needle abs = true
+  | 0, _, _, h => by simp [indexFrom] at h
+  | fuel + 1, s, abs, h => by
+    simp only [indexFrom] at h
+    split at h
+    · simp at h
+    · split at h
+      · rename_i ho; simp at h; subst h; exact ⟨Nat.le_refl _, ho⟩
+      · have := indexFrom_some bytes needle fuel (s + 1) abs h
+        exact ⟨by omega, this.2⟩
+
+theorem seekStart_some : ∀ (cs : List Bytes) (cur off ci i : Nat) (rest : List Bytes),
+    seekStart cs cur off ci = some (i, rest) →
+    ∃ k, k < cs.length ∧ i = ci + k ∧ rest = cs.drop k ∧ off = cur + (cs.take k).flatten.length
+  | [], _, _, _, _, _, h => by simp [seekStart] at h
+  | c :: cs, cur, off, ci, i, rest, h => by
+    simp only [seekStart] at h
+    split at h
+    · rename_i he
+      simp at h
+      exact ⟨0, by simp, by omega, by simp [h.2], by simp [he]⟩
+    · split at h
+      · simp at h
+      · obtain ⟨k, hk, hi, hr, ho⟩ := seekStart_some cs (cur + c.length) off (ci + 1) i rest h
+        refine ⟨k + 1, by simp; omega, by omega, by simp [hr], ?_⟩
+        simp [ho]; omega
+
+theorem isEnd_true : ∀ (rest : List Bytes) (cur e : Nat), isEnd rest cur e = true →
+    ∃ m, e = cur + (rest.take m).flatten.length
+  | [], _, _, h => by simp [isEnd] at h
+  | c :: cs, cur, e, h => by
+    simp only [isEnd] at h
+    split at h
+    · rename_i he; exact ⟨1, by simp [he]⟩
+    · split at h
+      · simp at h
+      · obtain ⟨m, hm⟩ := isEnd_true cs (cur + c.length) e h
+        exact ⟨m + 1, by simp [hm]; omega⟩
+
+theorem aligned_of_take : ∀ (rest : List Bytes) (m : Nat) (needle : Bytes),
+    (rest.take m).flatten = needle → alignedPrefix rest needle = true
+  | rest, _, [], _ => by cases rest <;> simp [alignedPrefix]
+  | [], m, n :: ns, h => by simp at h
+  | c :: cs, 0, n :: ns, h => by simp at h
+  | c :: cs, m + 1, n :: ns, h => by
+    simp only [List.take_succ_cons, List.flatten_cons] at h
+    have hp : c.isPrefixOf (n :: ns) = true := by
+      rw [List.isPrefixOf_iff_prefix]; exact ⟨_, h⟩
+    have hd : (n :: ns).drop c.length = (cs.take m).flatten := by
+      rw [← h]; exact List.drop_left' rfl
+    simp only [alignedPrefix, hp, if_true, hd]
+    exact aligned_of_take cs m _ rfl
+
+theorem drop_startOf (cs : List Bytes) (k : Nat) : cs.flatten.drop (startOf cs k) = (cs.drop k).flatten := by
+  have : (cs.take k).flatten ++ (cs.drop k).flatten = cs.flatten := by
+    rw [← List.flatten_append, List.take_append_drop]
+  rw [← this]; exact List.drop_left' rfl
+
+theorem loop_some (cs : List Bytes) (bytes needle : Bytes) : ∀ (fuel s i abs : Nat),
+    indexOfLoop cs bytes needle fuel s = some (i, abs) →
+    occursAt bytes needle abs = true ∧
+    ∃ rest, seekStart cs 0 abs 0 = some (i, rest) ∧ isEnd rest abs (abs + needle.length) = true
+  | 0, _, _, _, h => by simp [indexOfLoop] at h
+  | fuel + 1, s, i, abs, h => by
+    simp only [indexOfLoop] at h
+    split at h
+    · simp at h
+    · split at h
+      · simp at h
+      · rename_i a ha
+        split at h
+        · rename_i ci rest hs
+          split at h
+          · rename_i he
+            simp at h
+            obtain ⟨h1, h2⟩ := h
+            subst h1; subst h2
+            exact ⟨(indexFrom_some _ _ _ _ _ ha).2, rest, hs, he⟩
+          · exact loop_some cs bytes needle fuel (s + 1) i abs h
+        · exact loop_some cs bytes needle fuel (s + 1) i abs h
+
+/-- soundness of `indexOf`: a reported match starts at the start of cluster `i` and covers a whole
+number of clusters whose bytes are exactly the needle -/
+theorem indexOf_sound (s : Str) (needle : Bytes) (hn : needle ≠ []) (i off : Nat)
+    (h : s.indexOf needle = some (i, off)) :
+    i < s.clusters.length ∧ off = startOf s.clusters i ∧ alignedPrefix (s.clusters.drop i) needle = true := by
+  unfold Str.indexOf at h
+  have hl : needle.length ≠ 0 := by simpa using hn
+  simp only [hl, if_false] at h
+  split at h
+  · simp at h
+  · obtain ⟨hocc, rest, hs, he⟩ := loop_some _ _ _ _ _ _ _ h
+    obtain ⟨k, hk, hi, hr, ho⟩ := seekStart_some _ _ _ _ _ _ hs
+    have hi' : i = k := by omega
+    subst hi'
+    have hoff : off = startOf s.clusters i := by simp [startOf, ho]
+    refine ⟨hk, hoff, ?_⟩
+    obtain ⟨m, hm⟩ := isEnd_true _ _ _ he
+    subst hr
+    -- the needle and the first m clusters are prefixes of the same list, of the same length
+    have hpre : needle <+: (s.clusters.drop i).flatten := by
+      have := hocc
+      unfold occursAt Str.bytes at this
+      rw [hoff, drop_startOf] at this
+      exact List.isPrefixOf_iff_prefix.mp this
+    have hpre2 : ((s.clusters.drop i).take m).flatten <+: (s.clusters.drop i).flatten := by
+      refine ⟨((s.clusters.drop i).drop m).flatten, ?_⟩
+      rw [← List.flatten_append, List.take_append_drop]
+    have hlen : ((s.clusters.drop i).take m).flatten.length = needle.length := by omega
+    have heq : ((s.clusters.drop i).take m).flatten = needle :=
+      List.prefix_of_prefix_length_le hpre2 hpre (by omega) |>.eq_of_length hlen
+    exact aligned_of_take _ m _ heq
+
+end Verif.Proofs.Str
